@@ -30,6 +30,7 @@ import (
 	libshare "github.com/celestiaorg/go-square/v4/share"
 	"github.com/celestiaorg/nmt"
 
+	"github.com/celestiaorg/celestia-node/share"
 	zv "github.com/celestiaorg/celestia-node/zzverif"
 )
 
@@ -725,6 +726,15 @@ func TestVerifC12(t *testing.T) {
 	if r.ReplayInput(&rp) {
 		specs = append(specs, rp.Spec)
 	} else {
+		// chained layouts: blobs of one namespace, each starting in the row in which a multi-row predecessor ended
+		for i := 0; i < r.N(2, 12); i++ {
+			if spec, ok := c12GenChainedBuilt(rng.Fork(uint64(1000+i)), 2+i%2); ok {
+				specs = append(specs, spec)
+			}
+		}
+		for i := 0; i < r.N(8, 60); i++ {
+			specs = append(specs, c12GenChainedLayout(rng.Fork(uint64(2000+i)), i))
+		}
 		for i := 0; i < r.N(9, 120); i++ {
 			rr := rng.Fork(uint64(i))
 			spec := c11GenBuilt(rr)
@@ -749,6 +759,13 @@ func TestVerifC12(t *testing.T) {
 		g := &c11Getter{eds: blk.eds}
 		svc := blk.service(g)
 		r.Count("block_k", strconv.Itoa(blk.k))
+		r.Count("block_kind", spec.Kind)
+
+		// every blob of the block: the proof handed out covers exactly the rows of the blob, Included accepts exactly it
+		c12ProofRows(ctx, r, spec, blk, svc, g)
+		if spec.Kind != "built" {
+			continue // hand-placed shares: blobs are not aligned for commitment proofs
+		}
 
 		// all blobs of the block in square order
 		type bref struct {
@@ -981,6 +998,272 @@ func TestVerifC12(t *testing.T) {
 		}
 		prevRoot = root
 	}
+}
+
+// ---------------------------------------------------------------- proof rows (every blob of every block)
+
+// c12Rows: rows [first,last] of the ODS a blob occupies, from the builder's record (start index, share count) and the square width.
+func c12Rows(ref c11Ref, k int) (int, int) { return ref.start / k, (ref.start + ref.n - 1) / k }
+
+// c12Chained: number of blobs that start in the row in which the previous blob of the same namespace, spanning >= 2 rows, ended.
+func c12Chained(blk *c11Block) (n, longest int) {
+	for _, ns := range blk.nss {
+		run := 0
+		refs := blk.ref[string(ns.Bytes())]
+		for i := 1; i < len(refs); i++ {
+			p0, p1 := c12Rows(refs[i-1], blk.k)
+			b0, _ := c12Rows(refs[i], blk.k)
+			if p1 > p0 && b0 == p1 {
+				n++
+				run++
+				if run > longest {
+					longest = run
+				}
+			} else {
+				run = 0
+			}
+		}
+	}
+	return n, longest
+}
+
+// c12GenChainedLayout: hand-placed namespace: [filler of ns0 (Off shares)] then 2..4 blobs of ns1 back to back; every blob but the
+// last spans >= 2 rows and ends inside a row, so the next one starts in its predecessor's last row. Variant 0 is the smallest
+// instance (4x4 ODS, blob A = shares 0..5, blob B = shares 6..7).
+func c12GenChainedLayout(rng *zv.Rand, variant int) c11BlockSpec {
+	k := zv.Pick(rng, []int{4, 4, 8, 8, 16})
+	spec := c11BlockSpec{Kind: "layout", MaxK: k, Threshold: 64, NsIDs: c11NsIDs(rng, 2)}
+	blob := func(n int) {
+		b := c11BlobSpec{Ns: 1, Seed: rng.U64()}
+		if variant > 0 && rng.Chance(25) {
+			b.Ver, b.Signer = 1, uint64(rng.Intn(3))
+		}
+		b.Size = c11SizeFor(rng, n, b.Ver)
+		spec.Items = append(spec.Items, c11Item{Ns: 1, Blob: &b})
+	}
+	if variant == 0 {
+		spec.MaxK = 4
+		blob(6)
+		blob(2)
+		return spec
+	}
+	spec.Off = rng.Intn(2 * k)
+	cur := spec.Off
+	links := 1 + variant%3 // blobs with a chained successor
+	for i := 0; i < links; i++ {
+		end := (cur/k+1+rng.Intn(2))*k + 1 + rng.Intn(k-1) // first share after the blob: a later row, not at a row start
+		blob(end - cur)
+		cur = end
+	}
+	// the last blob: inside the row, up to the row's end, or running on into later rows
+	left := k - cur%k
+	switch rng.Intn(4) {
+	case 0:
+		blob(1)
+	case 1:
+		blob(left)
+	case 2:
+		blob(1 + rng.Intn(left))
+	default:
+		blob(left + 1 + rng.Intn(2*k))
+	}
+	if rng.Chance(40) { // something behind the chain in the same namespace
+		if rng.Chance(50) {
+			spec.Items = append(spec.Items, c11Item{Ns: 1, Pad: 1 + rng.Intn(k), PadV: 0})
+		}
+		blob(1 + rng.Intn(2*k))
+	}
+	return spec
+}
+
+// c12GenChainedBuilt: the same through the real square builder (blobs below the subtree root threshold are placed back to back):
+// one transaction with links+1 blobs of one namespace; sizes are drawn until the built square has the chain.
+func c12GenChainedBuilt(rng *zv.Rand, links int) (c11BlockSpec, bool) {
+	for try := 0; try < 40; try++ {
+		k := zv.Pick(rng, []int{4, 8, 8})
+		spec := c11BlockSpec{Kind: "built", MaxK: k, Threshold: 64, NsIDs: c11NsIDs(rng, 1+rng.Intn(2))}
+		ns := rng.Intn(len(spec.NsIDs))
+		t := c11TxSpec{Seed: rng.U64()}
+		for i := 0; i <= links; i++ {
+			n := k + 1 + rng.Intn(k)
+			if i == links {
+				n = 1 + rng.Intn(k)
+			}
+			b := c11BlobSpec{Ns: ns, Seed: rng.U64()}
+			b.Size = c11SizeFor(rng, n, 0)
+			t.Blobs = append(t.Blobs, b)
+		}
+		spec.Txs = []c11TxSpec{t}
+		blk, err := c11Build(spec)
+		if err != nil || blk.skipped > 0 {
+			continue
+		}
+		if _, longest := c12Chained(blk); longest >= links {
+			return spec, true
+		}
+	}
+	return c11BlockSpec{}, false
+}
+
+// c12ProofRows checks, for every blob of the block, against an expectation computed without the service (the builder's record
+// of start index / share count, the square width, and the row proofs of the namespace straight from the square):
+//   - GetProof returns one nmt proof per row the blob occupies, each proving that row's namespace shares to that row's root;
+//   - Included answers yes for exactly that proof and for GetProof's;
+//   - Included refuses that proof padded in front with the proofs of the preceding rows (the previous blob's), trimmed, and the
+//     proof of a neighbouring blob of the namespace.
+func c12ProofRows(ctx context.Context, r *zv.Run, spec c11BlockSpec, blk *c11Block, svc *Service, g *c11Getter) {
+	chained, longest := c12Chained(blk)
+	for i := 0; i < chained; i++ {
+		r.Count("rows_layout", "blob-starting-in-last-row-of-multirow-predecessor")
+	}
+	if longest >= 2 {
+		r.Count("rows_layout", "chain-of-3-or-more")
+	}
+	for _, ns := range blk.nss {
+		refs := blk.ref[string(ns.Bytes())]
+		if len(refs) == 0 {
+			continue
+		}
+		// the namespace's rows, straight from the square
+		firstRow := -1
+		for idx, sh := range blk.shares {
+			if sh.Namespace().Equals(ns) {
+				firstRow = idx / blk.k
+				break
+			}
+		}
+		nd, err := (&c11Getter{eds: blk.eds}).GetNamespaceData(ctx, blk.hdr, ns)
+		if err != nil || firstRow < 0 {
+			r.Count("rows_skipped", "namespace-data")
+			continue
+		}
+		expected := func(ref c11Ref) Proof {
+			r0, r1 := c12Rows(ref, blk.k)
+			if r0 < firstRow || r1-firstRow >= len(nd) {
+				return nil
+			}
+			var p Proof
+			for row := r0; row <= r1; row++ {
+				p = append(p, nd[row-firstRow].Proof)
+			}
+			return p
+		}
+		for i, b := range refs {
+			first, firstIdx := b, i // byte-identical blobs: the service finds the first of them
+			for j, o := range refs {
+				if bytes.Equal(o.com, b.com) {
+					first, firstIdx = o, j
+					break
+				}
+			}
+			if firstIdx != i {
+				r.Count("rows_skipped", "duplicate")
+				continue
+			}
+			r0, r1 := c12Rows(first, blk.k)
+			exp := expected(first)
+			if exp == nil {
+				r.Count("rows_skipped", "rows-outside-namespace-data")
+				continue
+			}
+			rep := func(tamper, detail string) c12Replay {
+				return c12Replay{Spec: spec, Blob: i, Ns: ns.Bytes(), Tamper: tamper, Detail: detail}
+			}
+			where := fmt.Sprintf("blob %d of namespace %x (shares %d..%d = rows %d..%d of a %dx%d ODS)", i, ns.ID(), first.start, first.start+first.n-1, r0, r1, blk.k, blk.k)
+			included := func(q Proof) (string, error) {
+				var ok bool
+				var err error
+				qq := c12CloneProof(q)
+				if p := zv.Recover(func() { ok, err = svc.Included(ctx, 1, ns, &qq, b.com) }); p != "" {
+					return "IncPanic", errors.New(p)
+				}
+				switch {
+				case err != nil:
+					return "IncErr", err
+				case ok:
+					return "IncYes", nil
+				}
+				return "IncNo", nil
+			}
+			r.Count("rows_blob", fmt.Sprintf("rows=%d", minInt(r1-r0+1, 4)))
+
+			// (1) the proof handed out
+			var pr *Proof
+			if p := zv.Recover(func() { pr, err = svc.GetProof(ctx, 1, ns, b.com) }); p != "" || err != nil || pr == nil {
+				r.Violation("proof-not-produced", "GetProof failed for "+where+": "+fmt.Sprint(p, err), rep("", fmt.Sprint(p, err)))
+			} else {
+				bad := ""
+				if len(*pr) != r1-r0+1 {
+					bad = fmt.Sprintf("%d components for %d rows", len(*pr), r1-r0+1)
+				} else if !c12ProofSame(*pr, exp) {
+					bad = "components differ from the nmt proofs of the blob's rows"
+				} else {
+					for j, c := range *pr {
+						row := r0 + j
+						if c == nil || !c.VerifyInclusion(share.NewSHA256Hasher(), ns.Bytes(), libshare.ToBytes(nd[row-firstRow].Shares), blk.hdr.DAH.RowRoots[row]) {
+							bad = fmt.Sprintf("component %d does not prove the namespace shares of row %d to that row's root", j, row)
+							break
+						}
+					}
+				}
+				if bad != "" {
+					r.Violation("proof-rows-wrong", "GetProof for "+where+" does not cover exactly the rows of the blob: "+bad, rep("get-proof", bad))
+				}
+				if v, err := included(*pr); v != "IncYes" {
+					r.Violation("included-honest-"+v, fmt.Sprintf("Included refuses the node's own proof for %s: %v", where, err), rep("", fmt.Sprint(err)))
+				}
+			}
+			// (2) the proof of exactly the blob's rows
+			if v, err := included(exp); v != "IncYes" {
+				r.Violation("included-own-proof-rejected", fmt.Sprintf("Included answers %s (%v) for the nmt proofs of exactly the rows of %s", v, err, where), rep("rows-proof", fmt.Sprint(err)))
+			}
+			// (3) padded / trimmed / a neighbour's
+			reject := func(sig, name string, q Proof) {
+				if q == nil || c12ProofSame(q, exp) {
+					return
+				}
+				v, err := included(q)
+				r.Count("rows_tamper", name+":"+v)
+				switch v {
+				case "IncYes":
+					r.Violation(sig, fmt.Sprintf("Included accepts, for %s, %s (%d components)", where, name, len(q)), rep(name, ""))
+				case "IncPanic":
+					r.Violation("included-panic:"+name, "Included panicked: "+err.Error(), rep(name, err.Error()))
+				}
+			}
+			if r0 > firstRow {
+				reject("included-padded-proof-accepted", "the blob's proof padded in front with the proof of the preceding row", append(Proof{nd[r0-1-firstRow].Proof}, exp...))
+			}
+			if i > 0 {
+				p0, _ := c12Rows(refs[i-1], blk.k)
+				if p0 < r0 && p0 >= firstRow {
+					var q Proof
+					for row := p0; row < r0; row++ {
+						q = append(q, nd[row-firstRow].Proof)
+					}
+					reject("included-padded-proof-accepted", "the blob's proof padded in front with the proofs of the previous blob's rows", append(q, exp...))
+				}
+				reject("included-neighbour-proof-accepted", "the proof of the previous blob of the namespace", expected(refs[i-1]))
+			}
+			if i+1 < len(refs) {
+				reject("included-neighbour-proof-accepted", "the proof of the next blob of the namespace", expected(refs[i+1]))
+			}
+			if r1+1-firstRow < len(nd) {
+				reject("included-padded-proof-accepted", "the blob's proof padded behind with the proof of the following row", append(append(Proof{}, exp...), nd[r1+1-firstRow].Proof))
+			}
+			if len(exp) > 1 {
+				reject("included-trimmed-proof-accepted", "the blob's proof without its first row", exp[1:])
+				reject("included-trimmed-proof-accepted", "the blob's proof without its last row", exp[:len(exp)-1])
+			}
+		}
+	}
+}
+
+func minInt(a, b int) int {
+	if a < b {
+		return a
+	}
+	return b
 }
 
 // panic classes = signatures of the known defect families (so that a different panic has a different signature)
